@@ -13,6 +13,8 @@ STATIC = [
 ]
 
 _cache = {}
+LEAD_P = 0.2
+LEAD = (0x00, 0x01, 0x02, 0x03, 0x04, 0x04, 0x05, 0x06, 0x07, 0x30, 0x40, 0x41, 0x80, 0xff)
 
 
 def _unescape(s):
@@ -66,7 +68,12 @@ def harvest(repo):
 def plant(rng, n, dic, p=0.12):
     """n bytes: random, or (with probability p) carrying a dictionary entry — exactly, when one has that length"""
     if n <= 0 or not dic or rng.random() >= p:
-        return rng.randbytes(n)
+        b = rng.randbytes(n)
+        if n > 0 and rng.random() < LEAD_P:
+            # opaque values often start with a format / type octet (EC point formats 0x00 0x02 0x03 0x04, ASN.1 0x30, ...):
+            # a check keyed on that first octet is never reached by uniformly random bytes
+            b = bytes([rng.choice(LEAD)]) + b[1:]
+        return b
     exact = [d for d in dic if len(d) == n]
     if exact and rng.random() < .8:
         return rng.choice(exact)
